@@ -1,7 +1,7 @@
 (* Strings as lists of code points; the fragment of Python's str API the models use. *)
 From Coq Require Import List NArith Bool Lia Decimal DecimalN.
 Import ListNotations.
-Open Scope N_scope.
+Local Open Scope N_scope.
 
 Definition str := list N.
 
